@@ -583,6 +583,10 @@ func c07SameMachineryStatus(k string, before, after any) bool {
 // ---------------------------------------------------------------------------
 // Running Sync the way Reconcile does
 
+// The scheme is only read by the simulated server; building it is the most
+// expensive part of a case, so it is shared.
+var c07Scheme = verifsim.NewScheme()
+
 var (
 	c07ClaimGVK = schema.GroupVersionKind{Group: c07Group, Version: c07Version, Kind: c07ClaimKind}
 	c07XRGVK    = schema.GroupVersionKind{Group: c07Group, Version: c07Version, Kind: c07XRKind}
@@ -821,7 +825,7 @@ func c07Case(t *rapid.T, rec *verifkit.Recorder, lateInitOpen bool) {
 	if err != nil {
 		t.Fatalf("HARNESS: %v", err)
 	}
-	s := verifsim.New(verifsim.NewScheme())
+	s := verifsim.New(c07Scheme)
 	s.ClusterScoped = func(gk schema.GroupKind) bool { return gk == c07XRGK }
 	claimName := rapid.SampledFrom([]string{"c", "my-claim"}).Draw(t, "claimName")
 	mode := rapid.SampledFrom([]string{"fresh", "fresh", "existing-unbound", "existing-bound"}).Draw(t, "mode")
@@ -1259,7 +1263,7 @@ func c07Pins() []c07Pin {
 }
 
 func c07RunPin(t *testing.T, w *c07World, syncer string, p c07Pin) {
-	s := verifsim.New(verifsim.NewScheme())
+	s := verifsim.New(c07Scheme)
 	s.ClusterScoped = func(gk schema.GroupKind) bool { return gk == c07XRGK }
 	utilrand.Seed(1)
 	if p.xr != nil {
@@ -1332,7 +1336,7 @@ func TestVerifC07KnownLateInit(t *testing.T) {
 	rec := verifkit.New(t, c07Prop, "known-finding reproducer: client-side syncer late-initialises claim spec from XR spec")
 	rec.Eval()
 	w := c07PinnedWorld(t)
-	s := verifsim.New(verifsim.NewScheme())
+	s := verifsim.New(c07Scheme)
 	s.ClusterScoped = func(gk schema.GroupKind) bool { return gk == c07XRGK }
 	utilrand.Seed(1)
 	xr := c07PinXR(nil, nil, map[string]any{
